@@ -1,6 +1,7 @@
 package main
 
 import (
+	"sync/atomic"
 	"sync"
 	"sort"
 	"fmt"
@@ -102,6 +103,57 @@ func runLB(ops []string) (out []string) {
 				parts = append(parts, fmt.Sprintf("%s=%d", kk, counts[kk]))
 			}
 			out = append(out, "c:"+strings.Join(parts, ","))
+		case "T":
+			// g goroutines create and walk k plans each while host h (not a member) is added and removed over and over
+			var g, k int
+			var h string
+			fmt.Sscanf(strings.ReplaceAll(arg, ",", " "), "%d %d %s", &g, &k, &h)
+			var bad atomic.Value
+			stop := make(chan struct{})
+			var tw sync.WaitGroup
+			tw.Add(1)
+			go func() {
+				defer tw.Done()
+				for {
+					select {
+					case <-stop:
+						return
+					default:
+					}
+					lb.OnEvent(&proxycore.AddEvent{Host: lbHost(h)})
+					lb.OnEvent(&proxycore.RemoveEvent{Host: lbHost(h)})
+				}
+			}()
+			var wg sync.WaitGroup
+			for i := 0; i < g; i++ {
+				wg.Add(1)
+				go func() {
+					defer wg.Done()
+					defer func() {
+						if p := recover(); p != nil {
+							bad.Store("t:panic")
+						}
+					}()
+					for j := 0; j < k; j++ {
+						seen := map[string]bool{}
+						pl := lb.NewQueryPlan()
+						for hst := pl.Next(); hst != nil; hst = pl.Next() {
+							if seen[hst.Key()] {
+								bad.Store("t:dup")
+							}
+							seen[hst.Key()] = true
+						}
+					}
+				}()
+			}
+			wg.Wait()
+			close(stop)
+			tw.Wait()
+			if b := bad.Load(); b != nil {
+				out = append(out, b.(string))
+			} else {
+				out = append(out, "t:ok")
+			}
 		case "N":
 			var i int
 			fmt.Sscan(arg, &i)
@@ -187,6 +239,8 @@ func genLB(e *emitter, r *rng.R, n int, tier string) {
 		{"B:h0,h1,h2,h3,h4", "P", "C:16,2000", "R:h1", "C:12,1500", "P", "N:1", "N:1"},
 		{"B:h0,h1", "S:18446744073709551000", "C:8,1000", "P", "N:0", "N:0"},
 		{"B:h0,h1,h2,h3,h4,h5,h6", "C:16,4001", "A:h7", "C:5,777"},
+		{"B:h0,h1,h2", "T:8,3000,h9", "P", "N:0", "N:0", "N:0", "N:0"},
+		{"B:h0,h1", "P", "T:12,2000,h9", "A:h5", "T:6,1500,h8", "P", "N:1", "N:1"},
 	} {
 		corpus = append(corpus, c)
 	}
